@@ -86,13 +86,16 @@ Section Gap.
       + assert (Hd : g_dobj (gap_stage ROps X yc lam (st_w st) (st_dobj st)) = d0) by congruence.
         rewrite Hd, Hd0. apply Rle_refl.
       + destruct (solver _ _ _ _) as [[b0 dxu]|]; [|discriminate].
-        destruct (line_search _ _ _ _ _ _ _ _ _ _ _ _ _) as [[[s nw] nu]|]; discriminate.
+        destruct (line_search _ _ _ _ _ _ _ _ _ _ _ _ _) as [[[s nw] nu]|]; [discriminate|].
+        destruct (is_finite ROps _ && is_finite ROps _); discriminate.
     - intros H. specialize (IH _ _ H).
       assert (Hd : st_dobj st' = g_dobj (gap_stage ROps X yc lam (st_w st) (st_dobj st))).
       { unfold ip_iter in Hit. destruct (stop_test ROps _ _ tol); [discriminate|].
         destruct (solver _ _ _ _) as [[b0 dxu]|]; [|discriminate].
-        destruct (line_search _ _ _ _ _ _ _ _ _ _ _ _ _) as [[[s nw] nu]|]; [|discriminate].
-        inversion Hit; subst. reflexivity. }
+        destruct (line_search _ _ _ _ _ _ _ _ _ _ _ _ _) as [[[s nw] nu]|].
+        - inversion Hit; subst. reflexivity.
+        - destruct (is_finite ROps _ && is_finite ROps _); [|discriminate].
+          inversion Hit; subst. reflexivity. }
       rewrite <- Hd. eapply Rle_trans; [|exact IH]. apply gap_stage_mono.
   Qed.
 
